@@ -5061,6 +5061,10 @@ func (c *BytecodeCompiler) compileGenericMethodCallNode(node *ast.GenericMethodC
 
 func (c *BytecodeCompiler) compileMethodCall(receiver ast.ExpressionNode, op *token.Token, nameNode ast.IdentifierNode, args []ast.ExpressionNode, tailCall bool, location *position.Location) {
 	name := identifierToName(nameNode)
+	if c.hasDefer {
+		// a tail call replaces the frame, the deferred closures of this function would never run
+		tailCall = false
+	}
 
 	switch op.Type {
 	case token.QUESTION_DOT:
